@@ -16,7 +16,7 @@ MODEL_TARGETS = ["Model/EncOp.vo"]
 ASSUMPTIONS = [
     "theorems are about Gen/Convert.v (regenerated from the convert methods of hera/op.py) executed by Gen/Ops.v",
     "Spec/PseudoSpec.v is a faithful reading of the manual's pseudo-operation definitions",
-    "label values are < 65536; NOT's source is not Rt; CALL's first operand is not R13/R14 (left open by C01)",
+    "label values are < 65536; NOT's source is not Rt; CALL's first operand is not R13/R14 for the full meaning (left open by C01); that the call arrives at the label is a theorem and an oracle for every register",
     "SET/SETRF to R15: equality up to hera-py's stack-overflow warning bookkeeping (the intermediate SETLO value "
     "may trigger the once-only warning), exact for every other destination",
 ]
